@@ -401,7 +401,7 @@ def run(run_, pkg, tier):
     gfn = pkg.method("Graph", "_calc_chi2_gradient_hessian")
     perms = [Scenario("order-reversed", ["PoseR2", "PoseSE2", "PoseR2"][::-1], [tuple(2 - k for k in e) for e in BASE_E], fixed=[2]),
              [s for s in SCENARIOS if s.name == "parallel-only"][0], [s for s in SCENARIOS if s.name == "parallel-free"][0],
-             [s for s in SCENARIOS if s.name == "fixed-two"][0]]
+             [s for s in SCENARIOS if s.name == "fixed-two"][0], [s for s in SCENARIOS if s.name == "same-edge-object-listed-twice"][0]]
     # relabelling: ids are opaque distinct names; every order relation between them is explored, and on each the prelude must fix
     # the same vertices and the assembly must produce the same system (in list order)
     perms += [Scenario("relabelled/fix-first", ["PoseR2", "PoseSE2", "PoseR2"], BASE_E, fix_first_pose=True, symbolic_ids=True),
@@ -416,7 +416,7 @@ def run(run_, pkg, tier):
     results, xt, xr = across_thresholds(run_, pkg, tasks, results, directed_assembly_tasks("C08-ac/assembly", "C08-ac-assembly-order-independent", "%s:%d" % (gfn._gs_module, gfn.lineno)))
     record(run_, tasks, results)
     record(run_, xt, xr)
-    run_.floor("C08 algebraic obligations", len(tasks) if run_.only is None else 20, 20)
+    run_.floor("C08 algebraic obligations", len(tasks) if run_.only is None else 21, 21)
     if run_.only is None:
         # the id lint is a syntactic proxy; when the relabelled scenarios (ids = opaque symbols, every order relation explored,
         # through the real constructor / optimize() / assembly) are all decided and hold, a lint hit is recorded as a note only
